@@ -203,6 +203,51 @@ def reuse_stream_case(case):
     return None
 
 
+ENC_MODEL = ["utf-8", "latin-1", "utf-16", "utf-8-sig"]
+
+
+def encode_impl(case):
+    """the real `Runner.write_proc_stdin` called once per piece, within ONE run (the per-run codec state as
+    `_run_body` leaves it): the bytes handed to the process"""
+    from fakerunner import Scripted
+    r = Scripted(pty=False)
+    r.run("cmd", in_stream=False, hide=True, encoding=case["enc"])  # establishes encoding + per-run codec state
+    r.stdin_writes = []
+    r._stdin_encoder = None
+    for piece in case["pieces"]:
+        r.write_proc_stdin(piece)
+    return b"".join(r.stdin_writes)
+
+
+def encode_case(case):
+    got = encode_impl(case)
+    text = "".join(case["pieces"])
+    want = text.encode(case["enc"]) if text else got
+    if got != want:
+        return "text %r forwarded in %d pieces under %s: the process was handed %r, the encoding of the text is %r" % (
+            text[:30], len(case["pieces"]), case["enc"], got[:40], want[:40])
+    return None
+
+
+def encode_line(case):
+    return "E|%s|i|%s" % (case["enc"], ";".join(".".join(str(ord(ch)) for ch in p) for p in case["pieces"]))
+
+
+def gen_encode(rng):
+    enc = rng.choice(ENC_MODEL)
+    pool = "ab z\n\u00e9\u00f1\u00ff" if enc == "latin-1" else "ab z\n\u00e9\u00f1\u20ac\u65e5\U0001f600\ufeff"
+    pool = pool.encode().decode("unicode_escape") if "\\" in pool else pool
+    text = "".join(rng.choice(pool) for _ in range(rng.randint(0, 10)))
+    pieces, i = [], 0
+    while i < len(text):
+        n = rng.choice([1, 1, 1, 2, 3, 5])
+        pieces.append(text[i:i + n])
+        i += n
+    if rng.random() < 0.2:
+        pieces.insert(rng.randint(0, len(pieces)), "")
+    return {"kind": "encode", "enc": enc, "pieces": pieces}
+
+
 def async_case(case):
     """asynchronous run with an EXPLICIT input stream (which may be the sys.stdin object itself): the text must be
     forwarded and EOF delivered; without an explicit stream nothing is forwarded"""
@@ -265,6 +310,8 @@ def replay(case):
         why = guarded(reuse_stream_case, case)
     elif k == "async":
         why = guarded(async_case, case)
+    elif k == "encode":
+        why = guarded(encode_case, case)
     elif "sched" in case:
         o = runnerio.run_impl(case)
         why = oracle_gated(case, o, runnerio.impl_obs(case, o))
@@ -313,6 +360,20 @@ def run(ctx):
         extra.append({"kind": "reuse_stream", "runs": runs})
     for how in ("sys.stdin", "explicit"):
         extra.append({"kind": "async", "how": how, "text": "hello é\n"})
+    # the encoding step against the Encoder model (Model/Encode.lean): text cut into pieces, one encoder per run
+    ecases = [gen_encode(rng) for _ in range(ctx.n(600, 6000))]
+    emodel = common.LeanDriver("drv_runner").run([encode_line(c) for c in ecases]) if ctx.model_ok else [None] * len(ecases)
+    for c, m in zip(ecases, emodel):
+        out.case(c, len(c["pieces"]) > 1)
+        out.hist["encode:" + c["enc"]] += 1
+        got = encode_impl(c)
+        if m is not None:
+            out.traces += 1
+            if got.hex() != m and "".join(c["pieces"]):
+                out.disagree(c, got.hex(), m)
+        why = encode_case(c)
+        if why:
+            out.fail(c, why)
     failed_of_kind = {}
     for c in extra:
         if failed_of_kind.get(c["kind"], 0) >= 4:
